@@ -93,14 +93,14 @@ def sig(o):
 
 
 def _work(batch):
-    """[(cid, text, expected|None)] -> [(cid, shipped, derived, verdict)]; outcomes are dropped when all agree and the
-    caller does not need them"""
+    """[(cid, text, expected|None, keep, both)] -> [(cid, shipped, derived|None, verdict)]; outcomes are dropped when all
+    agree and the caller does not need them"""
     out = []
-    for cid, text, expected, keep in batch:
+    for cid, text, expected, keep, both in batch:
         s = outcome('shipped', text)
-        d = outcome('derived', text)
+        d = outcome('derived', text) if both else None
         v = ''
-        if s != d:
+        if d is not None and s != d:
             v = 'shipped#derived'
         elif 'odd' in s:
             v = 'odd'
@@ -128,7 +128,7 @@ class Parsers:
         self._fixed = None
 
     def run(self, items, chunk=64):
-        """items: [(cid, text, expected|None, keep)] -> {cid: (shipped, derived, verdict)}"""
+        """items: [(cid, text, expected|None, keep, both)] -> {cid: (shipped, derived, verdict)}"""
         batches = [items[i:i + chunk] for i in range(0, len(items), chunk)]
         res = {}
         for out in self.pool.imap_unordered(_work, batches):
@@ -262,10 +262,16 @@ def nontrivial(c):
 
 def s2c(ctx, parsers, cases, budget_texts):
     rng = random.Random(ctx.seed)
+    if budget_texts < len(cases):           # more token sequences than texts affordable: a seeded sample of them
+        fixed = [c for c in cases if c['fam'] not in ('spine', 'stmt')]
+        rest = [c for c in cases if c['fam'] in ('spine', 'stmt')]
+        rng.shuffle(rest)
+        cases = fixed + rest[:max(0, budget_texts - len(fixed))]
     per = max(1, budget_texts // max(1, len(cases)))
     extra = budget_texts - per * len(cases)
     items = []
     meta = {}
+    nboth = 0
     order = list(range(len(cases)))
     rng.shuffle(order)
     more = set(order[:max(0, extra)])
@@ -279,7 +285,11 @@ def s2c(ctx, parsers, cases, budget_texts):
             else:
                 text = B.layout(c['tokens'], lr)
             cid = len(items)
-            items.append((cid, text, expected, False))
+            # the generated parser source is byte-identical to the shipped parser.py: the same deterministic code, run on
+            # every 4th text only (and on every text of the C2S leg); otherwise on every text
+            both = (not parsers.identical) or cid % 4 == 0 or c['fam'] not in ('spine', 'stmt')
+            nboth += both
+            items.append((cid, text, expected, False, both))
             meta[cid] = (ci, text)
     t0 = time.time()
     res = parsers.run(items)
@@ -302,10 +312,10 @@ def s2c(ctx, parsers, cases, budget_texts):
     ctx.traces += len(items)
     for c in cases[:2] + cases[len(cases) // 2:len(cases) // 2 + 1]:
         ctx.sample({'leg': 'S2C', 'fam': c['fam'], 'text': B.layout(c['tokens'], None, plain=True)[:200], 'spec_ok': c['ok']})
-    ctx.leg('S2C', token_sequences=len(cases), texts=len(items), texts_spec_accepts=accepted, texts_spec_rejects=rejected,
+    ctx.leg('S2C', token_sequences=len(cases), texts=len(items), texts_parsed_by_both_parsers=nboth, texts_spec_accepts=accepted, texts_spec_rejects=rejected,
             disagreements=bad, parse_wall_s=round(wall, 1), texts_per_s=round(len(items) / max(wall, 0.01)))
-    ctx.log('S2C: %d texts (%d token sequences) parsed by both parsers in %.1fs, %d disagreements' % (
-        len(items), len(cases), wall, bad))
+    ctx.log('S2C: %d texts (%d token sequences) parsed by the shipped parser, %d of them also by the derived one, in %.1fs; '
+            '%d disagreements' % (len(items), len(cases), nboth, wall, bad))
     # the three shapes agree with each other: token-model AST -> Appendix C -> beanquery.parser.ast -> back
     n = 0
     for c in cases[::max(1, len(cases) // 3000)]:
@@ -412,7 +422,7 @@ def c2s(ctx, parsers, cases, n_mut, n_arb):
         evs.append((c['tokens'], B.layout(c['tokens'], rng, glue=0.0), 'kwprefix'))
     for i in range(n_arb):
         evs.append((None, arbitrary_text(rng), 'arbitrary'))
-    items = [(i, e[1], None, True) for i, e in enumerate(evs)]
+    items = [(i, e[1], None, True, True) for i, e in enumerate(evs)]
     t0 = time.time()
     res = parsers.run(items)
     wall = time.time() - t0
@@ -454,6 +464,7 @@ def c2s(ctx, parsers, cases, n_mut, n_arb):
     for grp in range(0, nfiles, 6):
         for t in threads[grp:grp + 6]:
             t.start()
+            time.sleep(0.05)          # distinct TLC metadir names (millisecond time stamps)
         for t in threads[grp:grp + 6]:
             t.join()
     if errors:
@@ -506,16 +517,34 @@ def run(ctx):
         'token sequences on which the scannerless parser may cut a token in two (Unmodelled in Parser.tla) are skipped and counted',
         'TLC 1.8, Json / IOUtils community modules, TatSu 5.7.4, CPython 3.12; harness/bqlast.py (projection and layout)']
     only = ctx.only_legs
-    # ---- MC
+    # ---- MC (in a thread of its own: TLC and the parsing processes share the cores)
+    mc = {'violated': [], 'error': None}
+
+    def model_check():
+        try:
+            for cfg in ctx.pick(('MC_Parser.cfg', 'MC_ParserStmt.cfg'), ('MC_ParserT.cfg', 'MC_ParserStmtT.cfg')):
+                res = ctx.tlc('MC_Parser', cfg, leg='MC', timeout=ctx.pick(900, 3600), jvm=JVM, workers=ctx.pick(8, 16))
+                if res.violated:
+                    mc['violated'].append((cfg, res.violated, res.behaviour[:4000]))
+            ctx.tlc('MC_Parser', 'MC_Parser_nv_subright.cfg', leg='MC-nonvacuity', expect_violation='RoundTrip', workers=4, jvm=JVM)
+            ctx.tlc('MC_Parser', 'MC_Parser_nv_overparen.cfg', leg='MC-nonvacuity', expect_violation='Minimal', workers=4, jvm=JVM)
+        except BaseException as ex:  # noqa  (re-raised in the main thread)
+            mc['error'] = ex
+
+    def mc_join(th):
+        if th is not None:
+            th.join()
+        if mc['error'] is not None:
+            raise mc['error']
+        for cfg, violated, beh in mc['violated']:
+            ctx.violation('spec:' + ','.join(violated), 'TLC: printing and parsing do not invert each other in the grammar model',
+                          {'cfg': cfg, 'behaviour': beh}, 'MC')
+    mc_thread = None
     if not only or 'MC' in only:
-        for cfg in ctx.pick(('MC_Parser.cfg', 'MC_ParserStmt.cfg'), ('MC_ParserT.cfg', 'MC_ParserStmtT.cfg')):
-            res = ctx.tlc('MC_Parser', cfg, leg='MC', timeout=ctx.pick(600, 3000), jvm=JVM)
-            if res.violated:
-                ctx.violation('spec:' + ','.join(res.violated), 'TLC: printing and parsing do not invert each other in the grammar model',
-                              {'behaviour': res.behaviour[:4000]}, 'MC')
-        ctx.tlc('MC_Parser', 'MC_Parser_nv_subright.cfg', leg='MC-nonvacuity', expect_violation='RoundTrip', workers=4, jvm=JVM)
-        ctx.tlc('MC_Parser', 'MC_Parser_nv_overparen.cfg', leg='MC-nonvacuity', expect_violation='Minimal', workers=4, jvm=JVM)
+        mc_thread = threading.Thread(target=model_check)
+        mc_thread.start()
     if only and not (only & {'S2C', 'C2S'}):
+        mc_join(mc_thread)
         return
     parsers = Parsers(ctx)
     try:
@@ -525,11 +554,16 @@ def run(ctx):
         cases, fams = gen_cases(ctx)
         ctx.leg('GEN', families=fams)
         if not only or 'S2C' in only:
-            s2c(ctx, parsers, cases, ctx.pick(25000, 300000))
+            s2c(ctx, parsers, cases, int(os.environ.get('VERIF_C06_TEXTS', ctx.pick(25000, 140000))))
+        mc_join(mc_thread)
+        mc_thread = None
         if not only or 'C2S' in only:
-            c2s(ctx, parsers, cases, ctx.pick(6000, 60000), ctx.pick(2500, 25000))
+            scale = float(os.environ.get('VERIF_C06_C2S_SCALE', 1))       # development only
+            c2s(ctx, parsers, cases, int(ctx.pick(5000, 40000) * scale), int(ctx.pick(2000, 15000) * scale))
     finally:
         parsers.close()
+        if mc_thread is not None:
+            mc_thread.join()
     ctx.exhaustive = False
 
 
